@@ -589,9 +589,218 @@ def r5_lookback_complete(repo=None):
     return r
 
 
+def r6_reverse_changes_only_the_order(repo=None):
+    """`reverse` may change the order in which sub-directories and files are visited, never which files are selected.  The
+    per-channel generator (private helpers inlined) is interpreted for reverse = False / True over a symbolic list of three
+    sub-directories [e0, e1, e2] (ascending): (a) the sub-directory loop visits them in ascending, resp. exactly reversed order;
+    (b) every expression that selects files inside that loop - the arguments of the bisecting slice and every condition - has, for
+    each sub-directory, the same partially evaluated form in both modes (the loop-bound position counter and the flag become
+    constants, comparisons and and/or/not over constants are folded); (c) the loop that yields the files iterates over the sliced
+    list, resp. exactly its reverse.  A position counter taken from the *visiting* order (so that `k == 0` names the latest
+    sub-directory when reversed) is the defect this finds."""
+    from .. import pyorder, pysym
+    r = Rule("C14.R6", "reversing the listing changes only the order of the files, not the set")
+    m = pyfront.mod("list_drf", repo)
+    q = kernel_name(repo)
+    DD = decorate_name(repo)
+    SL = slice_name(repo)
+    view = m.flat(q, keep=(DD, SL), depth=4)
+    fn = view.fn()
+    params = [a.arg for a in fn.args.args]
+    if "reverse" not in params:
+        raise AnalysisError("%s: no `reverse` parameter" % q)
+    FLAG = "reverse"
+    yields = [n for n in pyfront.walk_no_nested(fn) if isinstance(n, (ast.Yield, ast.YieldFrom))]
+    parents = {}
+    for n in ast.walk(fn):
+        for ch in ast.iter_child_nodes(n):
+            parents[ch] = n
+
+    def enclosing_loops(n):
+        out = []
+        p = parents.get(n)
+        while p is not None:
+            if isinstance(p, ast.For) and not (isinstance(p.target, ast.Name) and p.target.id.startswith("__once_")):
+                out.append(p)
+            p = parents.get(p)
+        return out
+    outer = None
+    for y in yields:
+        ls = enclosing_loops(y)
+        if not ls:
+            raise AnalysisError("%s: a yield outside the sub-directory loop" % q)
+        if outer is None:
+            outer = ls[-1]
+        elif outer is not ls[-1]:
+            raise AnalysisError("%s: files are yielded from more than one outer loop" % q)
+    if outer is None:
+        raise AnalysisError("%s: no yield found" % q)
+
+    def stmt_of(n):
+        while n is not None and not isinstance(n, ast.stmt):
+            n = parents.get(n)
+        return n
+
+    per_mode = {}
+    for mode in (False, True):
+        ev = pyorder.SeqEval(fn, FLAG, mode)
+        try:
+            seq = ev.value(outer.iter, outer)
+        except pyorder.Unknown as e:
+            raise AnalysisError("%s: order of the sub-directory loop not evaluated for reverse=%s (%s)" % (q, mode, e))
+        binds = []
+        for v in seq:
+            env = {}
+            try:
+                pyorder.bind(outer.target, v, env)
+            except pyorder.Unknown as e:
+                raise AnalysisError("%s: %s" % (q, e))
+            el = pyorder.elem_of(v)
+            if el is None:
+                raise AnalysisError("%s: loop value does not carry one sub-directory" % q)
+            binds.append((el, env))
+        per_mode[mode] = (ev, binds)
+    order_f = [el for el, _ in per_mode[False][1]]
+    order_r = [el for el, _ in per_mode[True][1]]
+    site = "%s:%s %s" % (m.rel, outer.lineno, q)
+    if sorted(order_f) != list(range(pyorder.N)) or sorted(order_r) != list(range(pyorder.N)):
+        r.violation(m.rel, q, "for %s in %s" % (norm(ast.unparse(outer.target)), norm(ast.unparse(outer.iter))[:80]),
+                    "the sub-directory loop does not visit every selected sub-directory once (forward: %s, reversed: %s)" % (order_f, order_r),
+                    line=outer.lineno)
+        return r
+    if order_f != list(range(pyorder.N)) or order_r != list(reversed(range(pyorder.N))):
+        r.violation(m.rel, q, "for %s in %s" % (norm(ast.unparse(outer.target)), norm(ast.unparse(outer.iter))[:80]),
+                    "sub-directories are visited in the order %s (forward) / %s (reversed) of the ascending list; ascending and "
+                    "exactly descending are required" % (order_f, order_r), line=outer.lineno)
+        return r
+    r.ok(site, "sub-directories visited in ascending order, exactly reversed when `reverse`")
+
+    # (b) selection expressions inside the loop
+    exprs = []
+    for n in ast.walk(outer):
+        if n is outer:
+            continue
+        if isinstance(n, (ast.If, ast.While, ast.IfExp)):
+            exprs.append(("condition", n.test, n))
+        elif isinstance(n, ast.Call) and pyfront.call_name(n) == SL:
+            for a in n.args[1:]:
+                exprs.append(("argument of %s" % SL, a, n))
+            for k in n.keywords:
+                exprs.append(("argument %s= of %s" % (k.arg, SL), k.value, n))
+    n_sel = 0
+    tainted_pre = pyorder.flag_tainted(fn, FLAG, outer)
+    bound_names = {x.id for x in ast.walk(outer.target) if isinstance(x, ast.Name)}
+    for what, e, holder in exprs:
+        st = stmt_of(holder)
+        loc = pysym.seq_env(outer.body, stop=st)
+        loc = {k: v for k, v in loc.items() if not k.startswith("__once_")}
+        e2 = pysym.subst(e, loc)
+        # names set before the loop whose value depends on the flag (e.g. the position of the earliest sub-directory in visiting
+        # order): evaluated per mode; not evaluable -> not decided
+        pre = {False: {}, True: {}}
+        for nm in sorted({x.id for x in ast.walk(e2) if isinstance(x, ast.Name) and isinstance(x.ctx, ast.Load)} & tainted_pre):
+            if nm in bound_names:
+                continue
+            for mode in (False, True):
+                try:
+                    pre[mode][nm] = per_mode[mode][0].intval(ast.Name(nm, ast.Load()), outer)
+                except pyorder.Unknown as ex:
+                    raise AnalysisError("%s: `%s` is set before the sub-directory loop depending on `reverse` and is used in %s `%s`; its "
+                                        "value was not evaluated (%s)" % (q, nm, what, norm(ast.unparse(e))[:60], ex))
+        sym_f = pyorder.residual(e2, pre[False], FLAG, False)
+        sym_r = pyorder.residual(e2, pre[True], FLAG, True)
+        direct = sym_f != sym_r
+        if direct and pyorder.flag_value(e, FLAG, True) is not None:
+            continue        # a pure order switch (a function of the flag alone): judged under (a) and (c)
+        n_sel += 1
+        for el in range(pyorder.N):
+            env_f = dict(pre[False], **[env for x, env in per_mode[False][1] if x == el][0])
+            env_r = dict(pre[True], **[env for x, env in per_mode[True][1] if x == el][0])
+            rf = pyorder.residual(e2, env_f, FLAG, False)
+            rr = pyorder.residual(e2, env_r, FLAG, True)
+            if rf != rr and direct:
+                # mentions the flag itself and does not cancel out: may be an order switch with an extra condition - not decided
+                raise AnalysisError("%s: %s `%s` depends on `reverse` directly; not recognised as an order switch"
+                                    % (q, what, norm(ast.unparse(e))[:80]))
+            if rf != rr:
+                pos = {0: "earliest", pyorder.N - 1: "latest"}.get(el, "middle")
+                r.violation(m.rel, q, "%s `%s`" % (what, norm(ast.unparse(e))[:100]),
+                            "for the %s of %d selected sub-directories this is `%s` in a forward listing and `%s` in a reversed one "
+                            "(loop variables forward %s, reversed %s): the set of files listed depends on `reverse`"
+                            % (pos, pyorder.N, rf[:80], rr[:80],
+                               {k: v for k, v in env_f.items() if isinstance(v, int)}, {k: v for k, v in env_r.items() if isinstance(v, int)}),
+                            line=getattr(e, "lineno", None))
+                break
+    if n_sel == 0:
+        raise AnalysisError("%s: no selection expression found in the sub-directory loop" % q)
+    if not r.findings:
+        r.ok(site, "%d conditions / slice arguments in the loop have the same form for every sub-directory in both orders" % n_sel)
+
+    # (c) the yielded sequence
+    for y in yields:
+        ls = enclosing_loops(y)
+        inner = ls[0] if ls[0] is not outer else None
+        if inner is None:
+            if isinstance(y, ast.YieldFrom):
+                target_expr, at = y.value, stmt_of(y)
+            else:
+                raise AnalysisError("%s: files are yielded directly from the sub-directory loop" % q)
+        else:
+            if len(ls) != 2:
+                raise AnalysisError("%s: yield nested in %d loops" % (q, len(ls)))
+            target_expr, at = inner.iter, inner
+        seqs = {}
+        bases = {}
+        for mode in (False, True):
+            ev = pyorder.SeqEval(fn, FLAG, mode)
+            try:
+                seqs[mode] = [pyorder.elem_of(v) if not isinstance(v, pyorder.Elem) else v.i for v in ev.value(target_expr, at)]
+            except pyorder.Unknown as e:
+                raise AnalysisError("%s: order of the yielding loop not evaluated for reverse=%s (%s)" % (q, mode, e))
+            bases[mode] = list(ev.bases)
+        cons = "yield loop over %s" % norm(ast.unparse(target_expr))[:80]
+        if bases[False] != bases[True]:
+            r.violation(m.rel, q, cons, "the files yielded come from `%s` in a forward listing and from `%s` in a reversed one"
+                        % (bases[False], bases[True]), line=at.lineno)
+        elif seqs[False] != list(range(pyorder.N)) or seqs[True] != list(reversed(range(pyorder.N))):
+            r.violation(m.rel, q, cons, "the selected files %s are yielded in the order %s (forward) / %s (reversed); ascending and exactly "
+                        "descending are required" % (bases[False], seqs[False], seqs[True]), line=at.lineno)
+        else:
+            r.ok("%s:%s %s" % (m.rel, at.lineno, q), "files of `%s` yielded ascending, exactly reversed when `reverse`" % bases[False][0])
+
+    # uses of the flag in the public generator (and in private generators between it and the per-channel one)
+    def uses(fname, seen):
+        f = m.fn(fname)
+        par = {}
+        for x in ast.walk(f):
+            for ch in ast.iter_child_nodes(x):
+                par[ch] = x
+        for n in ast.walk(f):
+            if not (isinstance(n, ast.Name) and n.id == FLAG and isinstance(n.ctx, ast.Load)):
+                continue
+            p = par.get(n)
+            if isinstance(p, ast.keyword) and p.arg == "reverse":
+                continue
+            if isinstance(p, ast.Call) and n in p.args and isinstance(p.func, ast.Name) and p.func.id in m.functions:
+                callee = m.functions[p.func.id]
+                cp = [a_.arg for a_ in callee.args.args]
+                i = p.args.index(n)
+                if i < len(cp) and cp[i] == FLAG:
+                    if p.func.id != q and p.func.id not in seen:
+                        uses(p.func.id, seen + (p.func.id,))
+                    continue
+            raise AnalysisError("%s: use of `reverse` other than as a `reverse=` keyword or passed on as the `reverse` parameter: `%s`"
+                                % (fname, norm(ast.unparse(p))[:80]))
+    uses("ilsdrf", ("ilsdrf",))
+    r.ok("%s ilsdrf" % m.rel, "`reverse` is only passed on (sort order of directories / properties, the per-channel generator)")
+    r.guard(3)
+    return r
+
+
 def rules(repo=None):
     return [lambda: r1_grammar(repo), lambda: r2_kind_tables(repo), lambda: r3_sorted_before_sliced(repo),
-            lambda: r4_robust_listing(repo), lambda: r5_lookback_complete(repo)]
+            lambda: r4_robust_listing(repo), lambda: r5_lookback_complete(repo),
+            lambda: r6_reverse_changes_only_the_order(repo)]
 
 
 EXPLANATION = (
@@ -602,7 +811,11 @@ EXPLANATION = (
     "present'. R3: every list handed to the bisecting slice is sorted after its last modification on every CFG path; reversed() "
     "only wraps the sliced list. R4: every os.listdir of a timestamped sub-directory is inside try/except OSError and every "
     "constant subscript of a listing-derived list is reached only through a non-emptiness test. R5: the look-back loop scans all "
-    "earlier sub-directories and stops only on a non-empty match list. Does NOT decide the window arithmetic (bisect positions).")
-TECHNIQUE = ('Python ast; regular-language algebra on folded regex constants; abstract execution of flag chains; sortedness typestate over the CFG; guarded-subscript dataflow')
+    "earlier sub-directories and stops only on a non-empty match list. R6: the per-channel generator is interpreted for "
+    "reverse=False/True over a symbolic ascending list of three sub-directories: the loop visits them ascending resp. exactly "
+    "reversed, every selection expression in the loop (slice arguments, conditions) has the same partially evaluated form for each "
+    "sub-directory in both modes (position counters and the flag folded), and the yielding loop runs over the sliced list resp. its "
+    "exact reverse - reversing changes the order, not the set. Does NOT decide the window arithmetic (bisect positions).")
+TECHNIQUE = ('Python ast; regular-language algebra on folded regex constants; abstract execution of flag chains; sortedness typestate over the CFG; guarded-subscript dataflow; order/element interpretation of sequence expressions + partial evaluation of conditions for both values of a flag')
 ASSUMPTIONS = ["os.walk swallows listing errors by default", "Python regex semantics as modelled by vp.rx"]
 FILES = [LD]
